@@ -61,12 +61,15 @@ class CmdSeq(SubCheck):
 
     def __init__(self, svg, tier, seed):
         self.svg = svg
+        # deeper histories over one representative per interpreter-state class (move, close, single-axis, pair,
+        # smooth-with/without control, control-setting curve, arc): bugs in the current point / subpath start /
+        # last control bookkeeping need a close or a curve followed by several further commands
         if tier == "thorough":
-            self.space = Concat(pc.spec_space(4, 1), _budget2(3))
-            self.bounds = dict(depth=4, budget_depth4=1, budget_depth3=2)
+            self.space = Concat(pc.spec_space(4, 1), _budget2(3), _deep(5, 6))
+            self.bounds = dict(depth=4, budget_depth4=1, budget_depth3=2, deep_depth=6, deep_alphabet=DEEP)
         else:
-            self.space = pc.spec_space(3, 1)
-            self.bounds = dict(depth=3, budget=1)
+            self.space = Concat(pc.spec_space(3, 1), _deep(4, 4), _deep(5, 5, DEEP8))
+            self.bounds = dict(depth=3, budget=1, deep_depth4_alphabet=DEEP, deep_depth5_alphabet=DEEP8)
         self.builder = pc.Builder(seed)
         self.builder2 = pc.Builder(seed, flagshift=2)
 
@@ -99,6 +102,17 @@ class CmdSeq(SubCheck):
     def unit_test(self, case):
         return ("def test_replay():\n    from svgelements import Path\n    p = Path(%r)\n"
                 "    # compare with the SVG 2 interpretation, see replay 'expected'\n    print(list(p))\n" % case["d"])
+
+
+DEEP = "mMZHvlLtsqa"
+DEEP8 = "mZHvlLtq"
+
+
+def _deep(mink, maxk, letters=DEEP):
+    parts = []
+    for k in range(mink, maxk + 1):
+        parts.append(Product([(l, pc.PLAIN) for l in "Mm"], *[[(l, pc.PLAIN) for l in letters] for _ in range(k)]))
+    return Concat(*parts)
 
 
 def _budget2(maxk):
